@@ -35,6 +35,8 @@ THEOREMS = [
     "KrroodVerif.PD.C16_now",
     "KrroodVerif.PD.C16_cex_slice_twins",
     "KrroodVerif.PD.C16_cex_slice_one_shot",
+    "KrroodVerif.PD.C16_gated",
+    "KrroodVerif.PD.C16_cex_falsy",
     "KrroodVerif.PD.C16_two_general",
     "KrroodVerif.PD.C16_two_full",
     "KrroodVerif.PD.C16_two_partial",
@@ -66,6 +68,8 @@ ASSUMPTIONS = [
     "elements (Python set semantics), relations are per OBJECT (one graph node per instance) - every object handed "
     "to an add operation is asserted, as an individual append/add does; a set literal passed to =, |= cannot hold "
     "two equal elements, so such arguments are generated key-distinct",
+    "own-truthiness family (schema F): owner and elements are instances of a class with __len__ backed by a mutable "
+    "attribute, falsy at some points of the sequence; what is recorded must not depend on truthiness (F-C16-9)",
     "slice assignment without a step only (`a.f[i:j:k] = ...` is not generated)",
     "item assignment uses indices in range (an out-of-range index raises IndexError after the hook has run; "
     "not generated)",
@@ -331,6 +335,29 @@ def _recycle(rng, i: int) -> Case:
     return Case(_line(d, n_total, f, a, [], ops), tags, "random")
 
 
+def _falsy(rng, i: int) -> Case:
+    """owner and elements are instances of a class with its own truthiness (schema F: `__len__` backed by a mutable
+    attribute); some of them are falsy at some points of the sequence"""
+    d = _desc("F")
+    f = rng.randrange(6)
+    is_set = d["kinds"][f] == "set"
+    n_obj = rng.randint(4, 6)
+    a = rng.randrange(n_obj)
+    init, ops = _sequence(rng, n_obj, is_set, False, 6)
+    out = [_fmt(o) for o in ops]
+    for _ in range(rng.randint(1, 3)):
+        o = a if rng.random() < 0.3 else rng.randrange(n_obj)
+        k = rng.randint(0, len(out))
+        out.insert(k, f"(falsy {o})")
+        if rng.random() < 0.6:
+            out.insert(rng.randint(k + 1, len(out)), f"(truthy {o})")
+    objs = " ".join("(0 -)" for _ in range(n_obj))
+    line = (f"(w {d['sexp']} (objs {objs}) (field {f}) (obj {a}) (init{''.join(' ' + str(x) for x in init)}) "
+            f"(ops {' '.join(out)}))")
+    tags = ("own-truthiness", "set-field" if is_set else "list-field") + tuple(sorted({"op-" + o[0] for o in ops}))
+    return Case(line, tags, "random")
+
+
 def _value_equal(rng, i: int) -> Case:
     """a population in which several DISTINCT objects compare equal (schema V): lists keep them all by identity,
     sets keep the first, and every one of them that is added gets its own relation"""
@@ -407,6 +434,8 @@ def generate(rng, tier, n):
         cases.append(_value_equal(rng, i))
     for i in range(max(60, n // 3)):
         cases.append(_recycle(rng, i))
+    for i in range(max(60, n // 4)):
+        cases.append(_falsy(rng, i))
     return cases
 
 
